@@ -33,6 +33,18 @@ pub const ROLL: &[RollFn] = &[
     RollFn { name: "ts_vrank", arity: 1, nullable: true, exact: true, family: "cmp", pow: 1, mp_none_needs_len_ge_w: true, extra: " pct=0 rev=0" },
     RollFn { name: "ts_vminmaxnorm", arity: 1, nullable: true, exact: false, family: "norm", pow: 1, mp_none_needs_len_ge_w: false, extra: "" },
     RollFn { name: "ts_vzscore", arity: 1, nullable: true, exact: false, family: "norm", pow: 2, mp_none_needs_len_ge_w: false, extra: "" },
+    RollFn { name: "ts_vcov", arity: 2, nullable: true, exact: false, family: "binary", pow: 2, mp_none_needs_len_ge_w: false, extra: "" },
+    RollFn { name: "ts_vcorr", arity: 2, nullable: true, exact: false, family: "binary", pow: 2, mp_none_needs_len_ge_w: false, extra: "" },
+    RollFn { name: "ts_vregx_alpha", arity: 2, nullable: true, exact: false, family: "regx", pow: 2, mp_none_needs_len_ge_w: false, extra: "" },
+    RollFn { name: "ts_vregx_beta", arity: 2, nullable: true, exact: false, family: "regx", pow: 2, mp_none_needs_len_ge_w: false, extra: "" },
+    RollFn { name: "ts_vregx_resid_mean", arity: 2, nullable: true, exact: false, family: "regx", pow: 2, mp_none_needs_len_ge_w: false, extra: "" },
+    RollFn { name: "ts_vregx_resid_std", arity: 2, nullable: true, exact: false, family: "regx", pow: 2, mp_none_needs_len_ge_w: false, extra: "" },
+    RollFn { name: "ts_vregx_resid_skew", arity: 2, nullable: true, exact: false, family: "regx", pow: 3, mp_none_needs_len_ge_w: false, extra: "" },
+    RollFn { name: "ts_vreg", arity: 1, nullable: true, exact: false, family: "trend", pow: 2, mp_none_needs_len_ge_w: false, extra: "" },
+    RollFn { name: "ts_vtsf", arity: 1, nullable: true, exact: false, family: "trend", pow: 2, mp_none_needs_len_ge_w: false, extra: "" },
+    RollFn { name: "ts_vreg_slope", arity: 1, nullable: true, exact: false, family: "trend", pow: 2, mp_none_needs_len_ge_w: false, extra: "" },
+    RollFn { name: "ts_vreg_intercept", arity: 1, nullable: true, exact: false, family: "trend", pow: 2, mp_none_needs_len_ge_w: false, extra: "" },
+    RollFn { name: "ts_vreg_resid_mean", arity: 1, nullable: true, exact: false, family: "trend", pow: 2, mp_none_needs_len_ge_w: false, extra: "" },
     // CATALOG-APPEND (entries of merged properties go above this line)
 ];
 
